@@ -11,6 +11,54 @@ fn main() {
     if args.is_empty() {
         usage();
     }
+    if args[0] == "fuzz-seeds" {
+        // write small valid inputs for the libFuzzer targets (committed under fuzz/seeds)
+        let out = std::path::PathBuf::from(args.get(1).cloned().unwrap_or_else(|| "/verif/fuzz/seeds".into()));
+        let w = |t: &str, n: usize, b: &[u8]| {
+            let d = out.join(t);
+            let _ = std::fs::create_dir_all(&d);
+            let _ = std::fs::write(d.join(format!("seed{n:03}")), b);
+        };
+        for (n, t) in props::c17::seed_texts(24).iter().enumerate() {
+            w("c17_roundtrip", n, t.as_bytes());
+        }
+        let scratch = std::path::Path::new("/dev/shm/gaiv-fuzz-seed-scratch");
+        for (n, (i, p)) in props::c20::seed_payloads(scratch).iter().enumerate() {
+            let mut b = vec![*i, 0u8];
+            b.extend_from_slice(p.as_bytes());
+            w("c20_ingest", n, &b);
+        }
+        for (n, f) in ["claude-code-with-thinking.jsonl", "codex-session-simple.jsonl", "gemini-session-simple.json", "continue-cli-session-simple.json", "droid-session.jsonl", "copilot_session_simple.json"].iter().enumerate() {
+            if let Ok(t) = std::fs::read(std::path::Path::new("/repo/tests/fixtures").join(f)) {
+                let idx = [0u8, 1, 2, 3, 9, 5][n];
+                let mut b = vec![idx, 1u8];
+                b.extend_from_slice(&t[..t.len().min(3000)]);
+                w("c20_ingest", 100 + n, &b);
+            }
+        }
+        // c16: header (n_priors, author, split lo, split hi) + alphabet indices
+        let c16: [&[u8]; 4] = [
+            &[0, 1, 0, 128, 0, 4, 1, 4, 2, 4, 0, 4, 23, 4, 1, 4, 2, 4],
+            &[1, 2, 0, 100, 0, 6, 1, 1, 16, 16, 16, 8, 4, 13, 16, 16, 4, 16],
+            &[2, 3, 0, 90, 0, 3, 1, 2, 4, 3, 2, 3, 17, 23, 18, 19, 4, 20, 4, 4, 17, 24, 18, 19, 4, 13, 23, 4, 20],
+            &[0, 1, 0, 128, 6, 4, 6, 4, 6, 4, 4, 13, 6, 4, 13, 6, 4, 13, 6, 4],
+        ];
+        for (n, b) in c16.iter().enumerate() {
+            w("c16_tracker", n, b);
+        }
+        let c18: [&[u8]; 6] = [
+            b"\x00-C\x00sub\x00status\x00-s",
+            b"\x01\x80\x00\x9c\x00\xa8",
+            b"\x01a1\x00--help",
+            b"\x00--git-dir=.git\x00-c\x00x=y\x00log\x00-n\x001",
+            b"\x00--version\x00--build-options",
+            b"\x01--\x00a0",
+        ];
+        for (n, b) in c18.iter().enumerate() {
+            w("c18_cli", n, b);
+        }
+        return;
+    }
     let id = args[0].to_uppercase();
     let mut tier = match std::env::var("VERIF_TIER").as_deref() {
         Ok("thorough") => Tier::Thorough,
